@@ -1,4 +1,5 @@
 import Blots.Lemmas.FormatLemmas
+import Blots.Lemmas.FormatFragment
 /-
   C08 — formatting is idempotent: the arithmetic heart of blank-line handling, the structure
   of the joined output, and determinism.
@@ -23,9 +24,19 @@ import Blots.Lemmas.FormatLemmas
                                that is a function of the tree is idempotent as soon as its
                                output parses back to the tree — the C07 claim).
 
-  NOT proved: that re-parsing the output really yields the same trees at those lines with
-  the comments attached to the same nodes (the hypothesis of the lifting): this needs the
-  character-level grammar and the `partial` layout functions.  It is checked on the real code
+   * `format_idempotent_fragment` … : END TO END on the operator fragment (`Frag t`: binary
+                               operators, prefix `-` / `!`, postfix `!`, parentheses over names,
+                               `true false null`, integers < 10^15; unbounded depth), with the
+                               character-level PEG model of the `expression` rule and the Pratt
+                               parser as `parseText` (C10): for every width
+                               format ∘ parse ∘ format = format, the parsed tree does not depend
+                               on the width, and re-formatting at another width gives what
+                               formatting the original tree at that width gives.
+
+  NOT proved: that re-parsing the output of a whole PROGRAM really yields the same trees at
+  those lines with the comments attached to the same nodes (the hypothesis of the lifting), and
+  the statement round trip outside the operator fragment: this needs the character-level
+  grammar of statements, comments and the other term forms.  It is checked on the real code
   by the model-free oracle of `harness/src/props/c08.rs` (format twice, compare strings, all
   three drivers, 0–5 blank lines between statements) and by the C07 reparse oracle.
   `relayout` assumes what pest reports: a statement's span starts on the line of its first
@@ -121,6 +132,52 @@ theorem idempotent_of_roundtrip (parse : String → Option Expr) (w : Option Nat
       (parse src).map (formatExpr · w) := by
   simp [h1, h2]
 
+/-! ### end to end on the operator fragment (text level) -/
+
+section text
+open Blots.ExprPeg Blots.FormatFrag
+
+/-- C08 ON THE OPERATOR FRAGMENT, every width: the formatted text of a fragment tree is read
+    back (character-level PEG recogniser + Pratt parser) to a tree whose formatted text is the
+    same text. -/
+theorem format_idempotent_fragment (t : Expr) (h : Frag t) (w : Nat) :
+    ∃ t', parseText (formatExpr t (some w)) = some t' ∧
+      formatExpr t' (some w) = formatExpr t (some w) :=
+  ⟨t, formatExpr_parse t h (some w), rfl⟩
+
+/-- … in the form format ∘ parse ∘ format = format -/
+theorem format_parse_format (t : Expr) (h : Frag t) (w : Nat) :
+    (parseText (formatExpr t (some w))).map (formatExpr · (some w)) = some (formatExpr t (some w)) := by
+  rw [formatExpr_parse t h (some w)]; rfl
+
+/-- … and starting from any SOURCE TEXT whose parse is a fragment tree (whatever its layout
+    and redundant parentheses): formatting the formatted text again changes nothing. -/
+theorem format_idempotent_on_fragment_sources (src : String) (t : Expr) (hp : parseText src = some t)
+    (h : Frag t) (w : Nat) :
+    ((parseText src).map (formatExpr · (some w))).bind
+        (fun out => (parseText out).map (formatExpr · (some w))) =
+      (parseText src).map (formatExpr · (some w)) :=
+  idempotent_of_roundtrip parseText (some w) src t hp (formatExpr_parse t h (some w))
+
+/-- THE WIDTH DOES NOT CHANGE THE PARSED TREE -/
+theorem format_parse_width_independent (t : Expr) (h : Frag t) (w w' : Nat) :
+    parseText (formatExpr t (some w)) = parseText (formatExpr t (some w')) := by
+  rw [formatExpr_parse t h (some w), formatExpr_parse t h (some w')]
+
+/-- … so re-formatting at ANOTHER width gives what formatting the tree at that width gives
+    (format at 20 columns, then at 80: the 80-column text) -/
+theorem reformat_at_other_width (t : Expr) (h : Frag t) (w w' : Nat) :
+    (parseText (formatExpr t (some w))).map (formatExpr · (some w')) =
+      some (formatExpr t (some w')) := by
+  rw [formatExpr_parse t h (some w)]; rfl
+
+/-- the same at the default width (`format_expr` without a width) -/
+theorem format_idempotent_fragment_default (t : Expr) (h : Frag t) :
+    (parseText (formatExpr t none)).map (formatExpr · none) = some (formatExpr t none) := by
+  rw [formatExpr_parse t h none]; rfl
+
+end text
+
 /-! #### examples -/
 
 section examples
@@ -152,5 +209,53 @@ example : ∃ (parse : String → Option Expr) (src : String) (e : Expr),
     parse src = some e ∧ parse (formatExpr e none) = some e :=
   ⟨fun _ => some (.bin .add (.ident "a") (.ident "b")), "a+b", _, rfl, rfl⟩
 end examples
+
+/-! #### examples for the operator fragment (text level) -/
+
+section text_examples
+open Blots.ExprPeg Blots.FormatFrag
+private abbrev ia : Expr := .ident "a"
+private abbrev ib : Expr := .ident "b"
+private abbrev ic : Expr := .ident "c"
+private abbrev id4 : Expr := .ident "d"
+private abbrev ie : Expr := .ident "e"
+private abbrev ig : Expr := .ident "g"
+private abbrev two : Expr := .num ⟨0x4000000000000000⟩
+
+/-- `a + b * c - d ^ 2 ?? e and !g! != true` -/
+private abbrev x1 : Expr :=
+  .bin .nand
+    (.bin .sub (.bin .add ia (.bin .mul ib ic)) (.bin .pow id4 (.bin .coalesce two ie)))
+    (.bin .ne (.un .not (.fact ig)) (.bool true))
+/-- `-(a + (b via c)) * (-d)!` : starts with `-`, gets statement parentheses -/
+private abbrev x2 : Expr :=
+  .bin .mul (.un .negate (.bin .add ia (.bin .via ib ic))) (.fact (.un .negate id4))
+
+example : Frag x1 ∧ Frag x2 := by decide +kernel
+/-- by the theorems -/
+example : (parseText (formatExpr x1 (some 10))).map (formatExpr · (some 10)) =
+    some (formatExpr x1 (some 10)) := format_parse_format x1 (by decide +kernel) 10
+example : parseText (formatExpr x2 (some 1)) = parseText (formatExpr x2 (some 80)) :=
+  format_parse_width_independent x2 (by decide +kernel) 1 80
+/-- … and by evaluating the model: format, read the text back, format again — at widths 1, 10
+    and 80 (three different texts), and across widths -/
+example :
+    (parseText (formatExpr x1 (some 1))).map (formatExpr · (some 1)) = some (formatExpr x1 (some 1)) ∧
+    (parseText (formatExpr x1 (some 10))).map (formatExpr · (some 10)) = some (formatExpr x1 (some 10)) ∧
+    (parseText (formatExpr x1 (some 80))).map (formatExpr · (some 80)) = some (formatExpr x1 (some 80)) ∧
+    (parseText (formatExpr x1 (some 10))).map (formatExpr · (some 80)) = some (formatExpr x1 (some 80)) ∧
+    formatExpr x1 (some 1) ≠ formatExpr x1 (some 10) ∧
+    formatExpr x1 (some 10) ≠ formatExpr x1 (some 80) := by decide +kernel
+example :
+    (parseText (formatExpr x2 (some 6))).map (formatExpr · (some 6)) = some (formatExpr x2 (some 6)) ∧
+    formatExpr x2 (some 6) = "(-(a\n  + (b\n    via c))\n  * (-d)!)" ∧
+    formatExpr x2 (some 80) = "(-(a + (b via c)) * (-d)!)" := by decide +kernel
+/-- from a source text with its own layout and redundant parentheses -/
+example : (parseText "((a))+b\n*c   -(d ^ 2??e)\n and\t!g! !=true").map exprToSource =
+      some "a + b * c - d ^ 2 ?? e and !g! != true" ∧
+    ((parseText "((a))+b\n*c   -(d ^ 2??e)\n and\t!g! !=true").map (formatExpr · (some 10))).bind
+        (fun out => (parseText out).map (formatExpr · (some 10))) =
+      some (formatExpr x1 (some 10)) := by decide +kernel
+end text_examples
 
 end Blots.C08
